@@ -134,6 +134,11 @@ pub fn c16(ctx: &mut Ctx) -> R {
 pub fn c02_depth(ctx: &mut Ctx) -> R {
     chain(ctx, "C02")
 }
+/// C17 on a flow produced by following a redirect: the effective headers are the caller-added
+/// ones plus the inherited ones that are not suppressed.
+pub fn c17_depth(ctx: &mut Ctx) -> R {
+    chain(ctx, "C17")
+}
 
 fn chain(ctx: &mut Ctx, prop: &'static str) -> R {
     set_observed(false);
@@ -283,6 +288,42 @@ fn chain(ctx: &mut Ctx, prop: &'static str) -> R {
             }
         }
         cur.added = added;
+        if prop == "C17" && depth >= 1 && (ctx.flip() || depth as usize >= n_hops) {
+            // ---- the caller's amendment makes the redirected (body-less) request invalid
+            let (what, bad): (&str, Vec<Hdr>) = match ctx.draw(6) {
+                0 => ("duplicate content-length", vec![("content-length".into(), b"5".to_vec()), ("content-length".into(), b"5".to_vec())]),
+                1 => ("non-numeric content-length", vec![("content-length".into(), b"abc".to_vec())]),
+                2 => ("negative content-length", vec![("content-length".into(), b"-1".to_vec())]),
+                3 => ("content-length on a body-less method", vec![("content-length".into(), b"7".to_vec())]),
+                4 => ("duplicate host", vec![("host".into(), b"x.test".to_vec()), ("host".into(), b"y.test".to_vec())]),
+                _ => ("transfer-encoding: chunked on a body-less method", vec![("transfer-encoding".into(), b"chunked".to_vec())]),
+            };
+            for (n, v) in cur.added.iter().filter(|(n, _)| n != "host" && n != "content-length" && n != "transfer-encoding") {
+                let _ = lib("Flow<Prepare>::header", || flow.header(n.as_str(), v.as_slice()));
+            }
+            for (n, v) in &bad {
+                if let Err(e) = lib("Flow<Prepare>::header", || flow.header(n.as_str(), v.as_slice())) {
+                    fail!("FOREIGN", "", "header(): {}", e);
+                }
+            }
+            set_observed(true);
+            let mut f = lib("Flow<Prepare>::proceed", || flow.proceed());
+            let mut buf = vec![0u8; 4096];
+            ctx.sig3(777, depth as u64, what.len() as u64);
+            for (k, n) in [4096usize, 0, 64, 4096].iter().enumerate() {
+                let r = lib("Flow<SendRequest>::write", || f.write(&mut buf[..*n]));
+                ctx.ev(|| format!("redirected {} request with {}: attempt {} write(out={}) -> {:?}", cur.method, what, k, n, r.as_ref().map_err(crate::drive::err_name)));
+                match r {
+                    Ok(w) => fail!("C17.invalid_accepted", "redirected", "redirect depth {}: a {} request amended with {} was written ({} bytes on attempt {}) (chain: {})", depth, cur.method, what, w, k, trail.join(" => ")),
+                    Err(ureq_proto::Error::OutputOverflow) => fail!("C17.invalid_accepted", "redirected-overflow", "redirect depth {}: a {} request amended with {} got as far as output-overflow", depth, cur.method, what),
+                    Err(_) => {}
+                }
+                ensure!(!lib("Flow<SendRequest>::can_proceed", || f.can_proceed()), "C17.ready_after_refusal", "ready to advance after refusing an invalid redirected request");
+            }
+            ctx.count("p:invalid_redirected_request_refused");
+            ctx.nontrivial = true;
+            return Ok(());
+        }
         if despite_pending {
             lib("Flow<Prepare>::send_body_despite_method", || flow.send_body_despite_method());
             despite_pending = false;
